@@ -18,3 +18,21 @@ func ZZFireAll(m ScheduleManager) []string {
 	}
 	return fired
 }
+
+// ZZRunJobs runs every registered cron job once, the way cron does when the crontab
+// fires: the job sends the crontab on the schedule channel (and blocks while it is full).
+// Returns the number of jobs run.
+func ZZRunJobs(m ScheduleManager) int {
+	sm := m.(*scheduleManager)
+	n := 0
+	for _, e := range sm.cron.Entries() {
+		e.Job.Run()
+		n++
+	}
+	return n
+}
+
+// ZZJobs returns the number of registered cron jobs.
+func ZZJobs(m ScheduleManager) int {
+	return len(m.(*scheduleManager).cron.Entries())
+}
